@@ -306,3 +306,174 @@ Proof. exact chk_rls_example. Qed.
 
 Print Assumptions C10_chk_rls_is_about_R_model.
 Print Assumptions C10_chk_lms_is_about_R_model.
+
+(* ================================================================================================================
+   Tie (T) for the LOOP around the kernels: reservoirpy/_base.py :: train, translated on this run from the current source text
+   (coq/gen/Gen_trainloop.v, translator tools/vlib/py2coq_loop.py, vocabulary base/LoopPrelude.v), IS the train loop of model/Online.v.
+   The generated function is generic in the operations on the node; [gtrain fwd upd odim WS] (proofs/Gen_trainloop_eq.v) is the generated
+   function on the node the hand model describes -- [world]: learned state [w_st] (forward [fwd]; learning step [upd], whose prediction is the
+   node's current state), current state [w_cur], the log [w_proxy] of set_state_proxy calls, the values [w_teach] a registered teacher
+   node will deliver -- under the context manager WS ([ws_plain]: from_state=None, stateful=True, reset=False).
+   learn_every >= 1 (Python's i % 0 raises).                                                                                      *)
+From RV Require Import base.LoopPrelude gen.Gen_trainloop proofs.Gen_trainloop_eq.
+Close Scope Q_scope.
+Close Scope R_scope.
+
+Section GeneratedLoop.
+Context {F : Type} `{Num F} {St : Type} (fwd : St -> list F -> list F) (upd : St -> list F -> list F -> list F -> St).
+Notation vec := (list F).
+
+(* every sequence X, targets from the teacher node / Y / absent, call_node on or off ([fwdc]: the forward function of the loop is the
+   node's, or the never-changing current state), teachers forced or not: the learned state and the returned rows are Online.v's [train]
+   on the samples the loop reads ([xy_of]: x = X[i], y = teacher value | Y[i] | nothing); the node's state is the last row;
+   set_state_proxy has been called with every step's target iff force_teachers; the teacher has advanced by one value per step *)
+Theorem C10_generated_train_loop_is_model (odim : nat) (w : world) (X : list vec) (Y : option (list vec)) (call_node force_teachers : bool)
+      (learn_every : nat) (from_state : option vec) (stateful reset : bool) :
+  (1 <= learn_every)%nat ->
+  let T := w_teach w in
+  let xy := xy_of X Y T 0 (length X) in
+  let R := train (fwdc fwd call_node (w_cur w)) upd learn_every (w_st w) xy in
+  gtrain fwd upd odim ws_plain w X Y call_node force_teachers learn_every from_state stateful reset =
+    ({| w_st := fst R; w_cur := last (snd R) (w_cur w);
+        w_proxy := w_proxy w ++ (if force_teachers then map (y_at Y T 0) (seq 0 (length X)) else []);
+        w_teach := option_map (skipn (length X)) T |},
+     snd R).
+Proof. intros _. exact (gen_train_eq fwd upd odim w X Y call_node force_teachers learn_every from_state stateful reset). Qed.
+
+(* targets given as an array: the samples are the rows of X and Y, paired *)
+Theorem C10_generated_train_loop_arrays (odim : nat) (s : St) (c : vec) (pr : list (option vec)) (xy : list (vec * vec))
+      (call_node force_teachers : bool) (learn_every : nat) (from_state : option vec) (stateful reset : bool) :
+  (1 <= learn_every)%nat ->
+  let w := {| w_st := s; w_cur := c; w_proxy := pr; w_teach := None |} in
+  let R := train (fwdc fwd call_node c) upd learn_every s xy in
+  gtrain fwd upd odim ws_plain w (map fst xy) (Some (map snd xy)) call_node force_teachers learn_every from_state stateful reset =
+    ({| w_st := fst R; w_cur := last (snd R) c;
+        w_proxy := pr ++ (if force_teachers then map (fun p => Some (snd p)) xy else []); w_teach := None |}, snd R).
+Proof. intros _. exact (gen_train_arrays_eq fwd upd odim s c pr xy call_node force_teachers learn_every from_state stateful reset). Qed.
+
+(* a registered teacher node (delivering ys, then more): its values are the targets WHATEVER Y is *)
+Theorem C10_generated_train_loop_teacher (odim : nat) (s : St) (c : vec) (pr : list (option vec)) (xs ys more : list vec) (Y : option (list vec))
+      (call_node force_teachers : bool) (learn_every : nat) (from_state : option vec) (stateful reset : bool) :
+  (1 <= learn_every)%nat -> length ys = length xs ->
+  let w := {| w_st := s; w_cur := c; w_proxy := pr; w_teach := Some (ys ++ more) |} in
+  let R := train (fwdc fwd call_node c) upd learn_every s (combine xs ys) in
+  gtrain fwd upd odim ws_plain w xs Y call_node force_teachers learn_every from_state stateful reset =
+    ({| w_st := fst R; w_cur := last (snd R) c; w_proxy := pr ++ (if force_teachers then map Some ys else []); w_teach := Some more |}, snd R).
+Proof. intros _. exact (gen_train_teacher_eq fwd upd odim s c pr xs ys more Y call_node force_teachers learn_every from_state stateful reset). Qed.
+
+(* under ANY context manager WS (from_state / stateful / reset: C08's subject) that depends only on what its body computes, the generated
+   train is WS applied to the loop above *)
+Theorem C10_generated_train_loop_with_state (odim : nat)
+      (WS : forall A : Type, world (St:=St) -> option vec -> bool -> bool -> (world -> world * A) -> world * A) :
+  (forall A w fs sf rs (b1 b2 : world -> world * A), (forall w', b1 w' = b2 w') -> WS A w fs sf rs b1 = WS A w fs sf rs b2) ->
+  forall w X Y call_node force_teachers learn_every from_state stateful reset,
+  gtrain fwd upd odim WS w X Y call_node force_teachers learn_every from_state stateful reset =
+  WS (list vec) w from_state stateful reset (fun w' => gtrain fwd upd odim ws_plain w' X Y call_node force_teachers learn_every None true false).
+Proof. exact (gen_train_under_with_state fwd upd odim WS). Qed.
+
+(* C10_gate for the generated loop: the learner after the call = the learning step folded over the samples at positions i mod learn_every = 0 *)
+Theorem C10_generated_train_loop_gate (odim : nat) (s : St) (c : vec) (pr : list (option vec)) (xy : list (vec * vec))
+      (call_node force_teachers : bool) (learn_every : nat) (from_state : option vec) (stateful reset : bool) :
+  (1 <= learn_every)%nat ->
+  let w := {| w_st := s; w_cur := c; w_proxy := pr; w_teach := None |} in
+  w_st (fst (gtrain fwd upd odim ws_plain w (map fst xy) (Some (map snd xy)) call_node force_teachers learn_every from_state stateful reset))
+  = fold_left (learn1 (fwdc fwd call_node c) upd) (selected learn_every xy) s.
+Proof. intros _. exact (gen_train_gate fwd upd odim s c pr xy call_node force_teachers learn_every from_state stateful reset). Qed.
+
+(* C10_output_pre_update for the generated loop: row i is the forward pass of the learner as it is BEFORE step i's update *)
+Theorem C10_generated_train_loop_output_pre_update (odim : nat) (s : St) (c : vec) (pr : list (option vec)) (xy : list (vec * vec))
+      (call_node force_teachers : bool) (learn_every : nat) (from_state : option vec) (stateful reset : bool) (i : nat) (d : vec) (dx : vec * vec) :
+  (1 <= learn_every)%nat -> (i < length xy)%nat ->
+  let w := {| w_st := s; w_cur := c; w_proxy := pr; w_teach := None |} in
+  nth i (snd (gtrain fwd upd odim ws_plain w (map fst xy) (Some (map snd xy)) call_node force_teachers learn_every from_state stateful reset)) d
+  = fwdc fwd call_node c (fst (train_loop (fwdc fwd call_node c) upd learn_every (length xy =? 1) 0 s (firstn i xy))) (fst (nth i xy dx)).
+Proof. intros _. exact (gen_train_output_pre_update fwd upd odim s c pr xy call_node force_teachers learn_every from_state stateful reset i d dx). Qed.
+
+(* set_state_proxy: once per step with that step's target when teachers are forced, never otherwise *)
+Theorem C10_generated_train_loop_proxy (odim : nat) (s : St) (c : vec) (pr : list (option vec)) (xy : list (vec * vec))
+      (call_node force_teachers : bool) (learn_every : nat) (from_state : option vec) (stateful reset : bool) :
+  (1 <= learn_every)%nat ->
+  let w := {| w_st := s; w_cur := c; w_proxy := pr; w_teach := None |} in
+  w_proxy (fst (gtrain fwd upd odim ws_plain w (map fst xy) (Some (map snd xy)) call_node force_teachers learn_every from_state stateful reset))
+  = pr ++ (if force_teachers then map (fun p => Some (snd p)) xy else []).
+Proof. intros _. exact (gen_train_proxy fwd upd odim s c pr xy call_node force_teachers learn_every from_state stateful reset). Qed.
+End GeneratedLoop.
+
+(* non-vacuity: the GENERATED loop run at Q on the RLS node of C10_rls_example (alpha = 1/2, bias, learn_every = 2, five steps) returns the rows
+   and learns the weights of the hand model's rls_train; with call_node off every row is the unchanged current state *)
+Example C10_generated_train_loop_example :
+  let w0 := {| w_st := rls_init (F:=Q) true 2 1 (1#2)%Q; w_cur := [0%Q]; w_proxy := []; w_teach := None |} in
+  let g := gtrain (readout_forward 1) (rls_update true) 1 ws_plain w0 (map fst ex_xy) (Some (map snd ex_xy)) true false 2 None true false in
+  let g' := gtrain (readout_forward 1) (rls_update true) 1 ws_plain w0 (map fst ex_xy) (Some (map snd ex_xy)) false true 2 None true false in
+  (w_st (fst g), snd g) = rls_train true 1 2 (rls_init true 2 1 (1#2)%Q) ex_xy /\ nth 1 (snd g) [] <> [0%Q] /\ w_proxy (fst g) = [] /\
+  snd g' = repeat [0%Q] 5 /\ length (w_proxy (fst g')) = 5%nat.
+Proof. vm_compute. repeat split; try reflexivity. discriminate. Qed.
+
+Print Assumptions C10_generated_train_loop_is_model.
+Print Assumptions C10_generated_train_loop_arrays.
+Print Assumptions C10_generated_train_loop_teacher.
+Print Assumptions C10_generated_train_loop_with_state.
+Print Assumptions C10_generated_train_loop_gate.
+Print Assumptions C10_generated_train_loop_output_pre_update.
+Print Assumptions C10_generated_train_loop_proxy.
+
+(* ---- the wrapper reservoirpy/node.py :: Node.train (translated on this run into the `outcome` monad of base/LoopPrelude.v: a computation
+   finishes with a value or raises, and leaves a world behind in both cases).  There is no hand model of it: the statements are about the
+   GENERATED definition [gnode ...] = GenTrainLoop.node_method_train on ARBITRARY operations (every operation on the node, check_xy, initialize,
+   the context manager: Section variables, nothing assumed).  [run_loop] = the generated loop with call_node := Node.train's `call` and
+   force_teachers := force_teachers, followed by the un-registration of the teacher. *)
+Section GeneratedNodeTrain.
+Context {F : Type} `{Num F} {W UX UY : Type}.
+Notation vec := (list F).
+Notation mat := (list (list F)).
+Variables (output_dim : W -> nat) (has_teacher : W -> bool) (teacher_call : W -> W * vec) (bcall : W -> vec -> W * vec) (nstate : W -> vec)
+          (set_proxy : W -> option vec -> W) (ntrain : W -> vec -> option vec -> W)
+          (WS : forall A : Type, W -> option vec -> bool -> bool -> (W -> W * A) -> W * A).
+Variables (online : W -> bool) (check_xy : W -> UX -> UY -> outcome W (mat * option mat)) (initialized : W -> bool) (has_iter : UY -> bool)
+          (initialize : W -> vec -> option vec -> outcome W unit) (init_buffers : W -> outcome W unit) (unregister : W -> W).
+Notation gnode := (gnode output_dim has_teacher teacher_call bcall nstate set_proxy ntrain WS online check_xy initialized has_iter initialize init_buffers unregister).
+Notation run_loop := (run_loop output_dim has_teacher teacher_call bcall nstate set_proxy ntrain WS unregister).
+Notation init_then_loop := (init_then_loop output_dim has_teacher teacher_call bcall nstate set_proxy ntrain WS initialize init_buffers unregister).
+
+(* no online rule: TypeError and nothing is touched; data refused by check_xy: its exception, the world as check_xy left it *)
+Theorem C10_generated_node_train_refusals (w : W) (X : UX) (Y : UY) (force_teachers call : bool) (learn_every : nat) (fs : option vec) (sf rs : bool) :
+  (online w = false -> gnode w X Y force_teachers call learn_every fs sf rs = Raised w TypeError) /\
+  (forall w1 e, online w = true -> check_xy w X Y = Raised w1 e -> gnode w X Y force_teachers call learn_every fs sf rs = Raised w1 e).
+Proof.
+  split; [exact (gnode_refuses _ _ _ _ _ _ _ _ _ _ _ _ _ _ _ w X Y force_teachers call learn_every fs sf rs)
+         | intros w1 e; exact (gnode_check_raises _ _ _ _ _ _ _ _ _ _ _ _ _ _ _ w X Y force_teachers call learn_every fs sf rs w1 e)].
+Qed.
+
+(* an initialised node: exactly the loop on the arrays check_xy returned (call_node = `call`), then the teacher is un-registered *)
+Theorem C10_generated_node_train_runs_loop (w : W) (X : UX) (Y : UY) (force_teachers call : bool) (learn_every : nat) (fs : option vec) (sf rs : bool)
+      (w1 : W) (X_ : mat) (Y_ : option mat) :
+  online w = true -> check_xy w X Y = Done w1 (X_, Y_) -> initialized w1 = true ->
+  gnode w X Y force_teachers call learn_every fs sf rs = run_loop w1 X_ Y_ force_teachers call learn_every fs sf rs.
+Proof. exact (gnode_initialized _ _ _ _ _ _ _ _ _ _ _ _ _ _ _ w X Y force_teachers call learn_every fs sf rs w1 X_ Y_). Qed.
+
+(* first use: initialize(x = X_[0], y = Y_[0] when Y is iterable, None otherwise), initialize_buffers, the loop, un-registration;
+   an initialisation that raises still un-registers the teacher ([init_then_loop]) *)
+Theorem C10_generated_node_train_first_use (w : W) (X : UX) (Y : UY) (force_teachers call : bool) (learn_every : nat) (fs : option vec) (sf rs : bool)
+      (w1 : W) (x0 : vec) (Xr : mat) :
+  online w = true -> initialized w1 = false ->
+  (forall r Yr, check_xy w X Y = Done w1 (x0 :: Xr, Some (r :: Yr)) -> has_iter Y = true ->
+     gnode w X Y force_teachers call learn_every fs sf rs = init_then_loop w1 x0 (Some r) (x0 :: Xr) (Some (r :: Yr)) force_teachers call learn_every fs sf rs) /\
+  (forall Y_, check_xy w X Y = Done w1 (x0 :: Xr, Y_) -> has_iter Y = false ->
+     gnode w X Y force_teachers call learn_every fs sf rs = init_then_loop w1 x0 None (x0 :: Xr) Y_ force_teachers call learn_every fs sf rs).
+Proof.
+  intros E I. split; [intros r Yr C HI; exact (gnode_first_use_with_target _ _ _ _ _ _ _ _ _ _ _ _ _ _ _ w X Y _ _ _ _ _ _ w1 x0 Xr r Yr E C I HI)
+                     | intros Y_ C HI; exact (gnode_first_use_without_target _ _ _ _ _ _ _ _ _ _ _ _ _ _ _ w X Y _ _ _ _ _ _ w1 x0 Xr Y_ E C I HI)].
+Qed.
+
+(* once check_xy has accepted the data, every path of the call -- finishing or raising -- ends with the un-registration of the teacher *)
+Theorem C10_generated_node_train_always_unregisters (w : W) (X : UX) (Y : UY) (force_teachers call : bool) (learn_every : nat) (fs : option vec)
+      (sf rs : bool) (w1 : W) (p : mat * option mat) :
+  online w = true -> check_xy w X Y = Done w1 p ->
+  exists w', world_of (gnode w X Y force_teachers call learn_every fs sf rs) = unregister w'.
+Proof. exact (gnode_always_unregisters _ _ _ _ _ _ _ _ _ _ _ _ _ _ _ w X Y force_teachers call learn_every fs sf rs w1 p). Qed.
+End GeneratedNodeTrain.
+
+Print Assumptions C10_generated_node_train_refusals.
+Print Assumptions C10_generated_node_train_runs_loop.
+Print Assumptions C10_generated_node_train_first_use.
+Print Assumptions C10_generated_node_train_always_unregisters.
